@@ -202,9 +202,9 @@ def Ast.setChild (a : Ast) (c : Ast) : Ast := match a with
   | .alias i _ m n => .alias i c m n
   | .select i _ x => .select i c x
   | .rename i _ x => .rename i c x
-  | .mutate i _ a b d => .mutate i c a b d
+  | .mutate i _ a b d m => .mutate i c a b d m
   | .filter i _ x => .filter i c x
-  | .summarize i _ a b d => .summarize i c a b d
+  | .summarize i _ a b d m => .summarize i c a b d m
   | .arrange i _ x => .arrange i c x
   | .sliceHead i _ n o => .sliceHead i c n o
   | .groupBy i _ x a => .groupBy i c x a
@@ -250,10 +250,17 @@ def rebindColArg (cols : List (Uid × ColMeta)) (c : Uid × ColMeta) : Uid × Co
   | some (_, m) => (c.1, { c.2 with dtype := m.dtype, ftype := m.ftype })
   | none => c
 
+/-- cached root types survive a re-binding of the leaves, except for a root that *is* a column:
+    that `Col` object is replaced as a whole -/
+def refreshColRoots (f : Expr → Expr) (vals : List Expr) (metas : List (Dtype × Ftype)) : List (Dtype × Ftype) :=
+  (vals.zip metas).map (fun vm => match f vm.1 with
+    | .col _ dt ft => (dt, ft)
+    | _ => vm.2)
+
 def Ast.mapRoots (f : Expr → Expr) : Ast → Ast
-  | .mutate i c n v u => .mutate i c n (v.map f) u
+  | .mutate i c n v u m => .mutate i c n (v.map f) u (refreshColRoots f v m)
   | .filter i c p => .filter i c (p.map f)
-  | .summarize i c n v u => .summarize i c n (v.map f) u
+  | .summarize i c n v u m => .summarize i c n (v.map f) u (refreshColRoots f v m)
   | .arrange i c o => .arrange i c (o.map (fun x => (f x.1, x.2)))
   | .join i c r on h => .join i c r (f on) h
   | a => a
@@ -447,7 +454,7 @@ def applyVerb (env : Env) (srcVar : String) (call : VerbCall) : Except Err (Tbl 
       let vals ← cols.mapM (fun nv => preprocessArg env t true nv.2)
       let (uids, env) := env.freshUids cols.length
       -- kwargs are a dict: a repeated name keeps its first position and last value
-      finishVerb env (.mutate nid t.ast (cols.map (·.1)) vals uids) t
+      finishVerb env (.mutate nid t.ast (cols.map (·.1)) vals uids (vals.map (Cache.rootMeta true))) t
   | .filter preds => do
       let ps ← preds.mapM (preprocessArg env t true)
       for p in ps do
@@ -484,7 +491,7 @@ def applyVerb (env : Env) (srcVar : String) (call : VerbCall) : Except Err (Tbl 
       for v in vals do
         checkSummarize t.cache.partitionBy 64 false v
       if t.cache.summarizeKeyError then throw (.internal "KeyError uuid_to_name")
-      finishVerb env (.summarize nid t.ast (cols.map (·.1)) vals uids) t
+      finishVerb env (.summarize nid t.ast (cols.map (·.1)) vals uids (vals.map (Cache.rootMeta false))) t
   | .sliceHead n off => do
       if !t.cache.partitionBy.isEmpty then throw .value
       finishVerb env (.sliceHead nid t.ast n off) t
